@@ -133,19 +133,34 @@ pub fn lex_quoted(b: &[u8; sink::CAP], len: usize) -> Option<Lexed> {
 
 const ALPHA_SINGLE: [char; 8] = ['"', '\\', 'a', '\r', '\u{1}', 'é', '😀', '/'];
 
+fn has_quote_or_backslash(s: &SymStr) -> bool {
+    let mut i = 0;
+    while i < s.n {
+        if s.chars[i] == '"' || s.chars[i] == '\\' {
+            return true;
+        }
+        i += 1;
+    }
+    false
+}
+
+// $known = false: inputs OUTSIDE the recorded finding (no `"` and no `\`): must verify.
+// $known = true : inputs INSIDE the recorded finding (some `"` or `\`): expected to fail
+//                 (known_findings.json: print_string prints them verbatim in a quoted string).
 macro_rules! single_line_harness {
-    ($name:ident, $n:expr, $unw:expr) => {
+    ($name:ident, $n:expr, $unw:expr, $known:expr) => {
         #[kani::proof]
         #[kani::stub(alloc::string::String::push, sink::string_push)]
         #[kani::stub(alloc::string::String::push_str, sink::string_push_str)]
         #[kani::stub(str::repeat, sink::str_repeat_1)]
         #[kani::stub(alloc::fmt::format, format_stub_u1)]
-        #[kani::stub(core::slice::memchr::memchr, strlex::memchr_simple)]
+        #[kani::stub(str::find, strlex::str_find_char)]
         #[kani::unwind($unw)]
         fn $name() {
             let s = SymStr::any($n, &ALPHA_SINGLE);
+            kani::assume(has_quote_or_backslash(&s) == $known);
             let mut w = Collect { native: String::new() };
-            s.with_concrete_len(&mut |text: &str| print_string(text, &mut w));
+            print_string(s.as_str(), &mut w);
             let (out, len) = sink::contents(&w.native);
             let lexed = lex_quoted(&out, len);
             assert!(lexed.is_some(), "C16: print_string output is exactly one GraphQL string token");
@@ -159,13 +174,14 @@ macro_rules! single_line_harness {
                 assert!(l.v[i] == s.chars[i] as u32, "C16: re-lexed string value equals the input");
                 i += 1;
             }
-            kani::cover!(s.n == $n && s.chars[0] == '"', "input starting with a double quote");
-            kani::cover!(s.n >= 2 && s.chars[1] == '\\', "input containing a backslash");
-            kani::cover!(s.n >= 1 && s.chars[0] == '\u{1}', "input containing a control character");
-            kani::cover!(s.n == 0, "empty string");
+            kani::cover!(!$known || (s.n == $n && s.chars[0] == '"'), "input starting with a double quote (known class) / trivial otherwise");
+            kani::cover!($known || (s.n >= 1 && s.chars[0] == '\u{1}'), "input containing a control character");
+            kani::cover!($known || (s.n == $n && s.chars[0] == '\u{1F600}'), "input containing an astral character");
+            kani::cover!($known || s.n == 0, "empty string");
             core::mem::forget(w);
         }
     };
 }
-single_line_harness!(print_string_single_line_n2, 2, 18);
-single_line_harness!(print_string_single_line_n3, 3, 19);
+single_line_harness!(print_string_single_line_n2_outside_known, 2, 14, false);
+single_line_harness!(print_string_single_line_n2_known_quote_backslash, 2, 14, true);
+single_line_harness!(print_string_single_line_n3_outside_known, 3, 19, false);
